@@ -1,4 +1,5 @@
 import CfrVerif.Proofs.PresetFinal
+import CfrVerif.Props.C09
 /-!
 # C03 — the unsampled solve converges to equilibrium at the CFR rate on every game
 
@@ -83,5 +84,53 @@ theorem c03_vanilla_regret (g : Game ℝ) (hg : GameWF g) (lo hi : ℝ) (hD : lo
     (getInfo g (solveVanillaSingle g false RegretParams.vanilla draw T none).profile).regret
       ≤ 2 * (hi - lo) * ((g.p1.length + g.p2.length : Nat) : ℝ) * Real.sqrt A / Real.sqrt T :=
   full_vanilla_regret_rate g hg lo hi hD hpay A hA draw T hT
+
+/-! ## the second sentence with early termination
+
+A run with a regret threshold is the run without one whose budget is the number of iterations
+actually made (C09), so the rate holds at that number — for every threshold (NaN, `±∞`, finite)
+and every budget. -/
+
+/-- **every preset, every threshold**: the true regret of the returned profile obeys the rate at
+the number `t` of iterations the run actually made (`t ≥ 1`) -/
+theorem c03_preset_regret_threshold (g : Game ℝ) (hg : GameWF g) (lo hi : ℝ)
+    (hpay : PayIn lo hi g.root) (A : Nat) (hA : ActsLe g A) (hA2 : 2 ≤ A) (p : RegretParams ℝ)
+    (hp : p = RegretParams.vanilla ∨ IsDiscountedPreset p) (draw : DrawFn ℝ) (T : Nat)
+    (thr : Option (Ext ℝ)) (hrun : 0 < (solveVanillaSingle g false p draw T thr).iters) :
+    (getInfo g (solveVanillaSingle g false p draw T thr).profile).regret
+      ≤ 6 * (hi - lo) * ((g.p1.length + g.p2.length : Nat) : ℝ)
+          * (Real.sqrt A + 1 / Real.sqrt ((solveVanillaSingle g false p draw T thr).iters : ℕ))
+          / Real.sqrt ((solveVanillaSingle g false p draw T thr).iters : ℕ) := by
+  rw [vanilla_single_threshold_eq_prefix g false p draw T thr] at hrun ⊢
+  have hit : (solveVanillaSingle g false p draw
+      (tstar g (vanillaIter g false p draw) T thr) none).iters
+        = tstar g (vanillaIter g false p draw) T thr := by
+    unfold solveVanillaSingle solveWith
+    rw [solveLoop_none_iters]; omega
+  rw [hit] at hrun ⊢
+  exact c03_preset_regret g hg lo hi hpay A hA hA2 p hp draw _ hrun
+
+/-- the same for every thread count (task target, fair schedule) -/
+theorem c03_preset_regret_threshold_multi (sched : Sched ℝ) (hs : sched.Fair) (g : Game ℝ)
+    (hg : GameWF g) (lo hi : ℝ) (hpay : PayIn lo hi g.root) (A : Nat) (hA : ActsLe g A)
+    (hA2 : 2 ≤ A) (p : RegretParams ℝ) (hp : p = RegretParams.vanilla ∨ IsDiscountedPreset p)
+    (draw : DrawFn ℝ) (T : Nat) (thr : Option (Ext ℝ)) (target : Nat)
+    (hrun : 0 < (solveVanillaMultiS sched g false p draw T thr target).iters) :
+    (getInfo g (solveVanillaMultiS sched g false p draw T thr target).profile).regret
+      ≤ 6 * (hi - lo) * ((g.p1.length + g.p2.length : Nat) : ℝ)
+          * (Real.sqrt A + 1 / Real.sqrt ((solveVanillaMultiS sched g false p draw T thr target).iters : ℕ))
+          / Real.sqrt ((solveVanillaMultiS sched g false p draw T thr target).iters : ℕ) := by
+  have hpre : solveVanillaMultiS sched g false p draw T thr target
+      = solveVanillaMultiS sched g false p draw
+          (tstar g (vanillaMultiIterS sched g false p draw target) T thr) none target :=
+    solveWith_threshold_eq_prefix g _ T thr
+  rw [hpre] at hrun ⊢
+  have hit : (solveVanillaMultiS sched g false p draw
+      (tstar g (vanillaMultiIterS sched g false p draw target) T thr) none target).iters
+        = tstar g (vanillaMultiIterS sched g false p draw target) T thr := by
+    unfold solveVanillaMultiS solveWith
+    rw [solveLoop_none_iters]; omega
+  rw [hit] at hrun ⊢
+  exact c03_preset_regret_multi sched hs g hg lo hi hpay A hA hA2 p hp draw _ hrun target
 
 end Cfr
